@@ -30,6 +30,8 @@ func runC19(e *Engine, r *Report, tier string) {
 	r.Rule("R2", "refund converts only if the relation existed; holder = packet sender", 2, "")
 	r.Rule("R3", "inbound conversion guarded; keeper error -> error acknowledgement", 3, "")
 	r.Rule("R7", "the inbound conversion routine converts to ERC-20 on every success path", 1, "implementations of the conversion call in OnRecvPacket")
+	r.Rule("R9", "an acknowledgement / timeout callback succeeds only if the refund hook succeeded: the hook's error is the callback's error (a swallowed error lets IBC core clear the packet with the sender never refunded in ERC-20 form)", 2, "OnAcknowledgementPacket / OnTimeoutPacket of IBCModule implementers")
+	e.c19HookErrorIsCallbackError(r)
 	r.Rule("R6", "a failing conversion of a received coin fails the packet (its error is never swallowed): C04.R8 at the middleware", 1, "C04 obligations")
 	{
 		sub04 := NewReport("C04", "other")
@@ -643,4 +645,103 @@ func (e *Engine) sliceIntoCallersField(v ssa.Value, typSuffix, field string) boo
 		return Continue
 	})
 	return res.AllAccepted()
+}
+
+
+// c19HookErrorIsCallbackError (R9): IBC core deletes the packet commitment when the callback returns nil; the refund can
+// never be retried afterwards. So the middleware's ack / timeout callbacks must reach the code that settles the transfer
+// relation (deletes erc20 0x04) through calls whose error they return, on every success path.
+func (e *Engine) c19HookErrorIsCallbackError(r *Report) {
+	n := 0
+	var propagates func(F *ssa.Function, depth int) (bool, string, ssa.Instruction)
+	propagates = func(F *ssa.Function, depth int) (bool, string, ssa.Instruction) {
+		if depth > 3 {
+			return false, "call chain to the refund hook too deep to decide", nil
+		}
+		var why string
+		var at ssa.Instruction
+		okAny := false
+		allCalls(F, func(c ssa.CallInstruction) {
+			if okAny {
+				return
+			}
+			reaches := false
+			var next *ssa.Function
+			for _, f := range e.calleesOf(c) {
+				if isFx(f) && e.HasTransEffect(f, "erc20", "04", "delete") {
+					reaches = true
+					next = f
+				}
+			}
+			if !reaches {
+				return
+			}
+			at = c
+			res := c.Common().Signature().Results()
+			hasErr := false
+			for i := 0; i < res.Len(); i++ {
+				if isErrorType(res.At(i).Type()) {
+					hasErr = true
+				}
+			}
+			if !hasErr {
+				why = "the call that reaches the refund hook (" + callName(c) + ") returns no error: a failed refund cannot fail the callback"
+				return
+			}
+			if ok, w := errorHandled(c); !ok {
+				why = "the error of " + callName(c) + " is not propagated: " + w
+				return
+			}
+			if off := MustPassThrough(F, nil, func(i ssa.Instruction) bool { return i == ssa.Instruction(c) }); off != nil {
+				why = "the callback can return success without having run the refund hook"
+				at = off
+				return
+			}
+			if next != nil && !strings.Contains(fnPkgPath(next), "/keeper") {
+				// a relay inside the middleware package: it must propagate as well
+				if ok2, w2, at2 := propagates(next, depth+1); !ok2 {
+					why, at = w2, at2
+					return
+				}
+			}
+			okAny = true
+		})
+		if okAny {
+			return true, "", nil
+		}
+		if why == "" {
+			why = "no call reaches the code that settles the transfer relation (erc20 0x04)"
+		}
+		return false, why, at
+	}
+	for _, T := range e.TypesImplementing("github.com/cosmos/ibc-go/v8/modules/core/05-port/types", "IBCModule") {
+		for _, mn := range []string{"OnAcknowledgementPacket", "OnTimeoutPacket"} {
+			F := e.MethodOf(T, mn)
+			if F == nil || !isFx(F) || isAuxPkg(fnPkgPath(F)) {
+				continue
+			}
+			if !e.HasTransEffect(F, "erc20", "04", "delete") {
+				// not the fx middleware's settlement path (e.g. a pass-through wrapper)
+				reach := false
+				for f := range e.Reach([]*ssa.Function{F}, func(x *ssa.Function) bool { return !isFx(x) }) {
+					if e.HasTransEffect(f, "erc20", "04", "delete") {
+						reach = true
+					}
+				}
+				if !reach {
+					continue
+				}
+			}
+			n++
+			ok, why, at := propagates(F, 0)
+			pos := e.Pos(F.Pos())
+			if at != nil {
+				pos = e.InstrPos(at)
+			}
+			r.Check(ok, "R9", e.FnKey(F)+" hook error", pos, "returns the refund hook's error; success only after the hook ran", why+": IBC core then clears the packet although the sender was not refunded in ERC-20 form and the tracking record stays")
+		}
+	}
+	if n == 0 {
+		r.Fail("R9", "callbacks", "", "UNRESOLVED-ANCHOR: no IBCModule implementer whose ack / timeout callback reaches the transfer relation")
+	}
 }
